@@ -102,6 +102,12 @@ CHECKS = {
             "answered adaptively, malformed requests, non-request kinds with arbitrary sequence numbers, 26 crafted exception payloads; histories to depth 3 (quick) / 4 (thorough), states de-duplicated by (ended, table by role, pool roles, proxy cache).",
             "dedicated-handler special methods (__dir__, __hash__, __repr__, __str__, __call__, iteration, __instancecheck__) are not canaries; alphabet is a structured menu, not all frames",
             "E3+E5", "DESIGN.md#c07"),
+    "C09": ("exploration",
+            "exhaustive enumeration of built-in exception classes x argument tuples x sender/receiver switch settings through a real serving Connection, the reference codec and a real requesting Connection; custom-class situations and hostile records with import/constructor canaries",
+            "Every BaseException subclass of builtins with 7 generic and class-specific argument tuples is raised in a handler of a real Connection under all 4 sender switch settings; the transmitted record is fed to a real requesting Connection under all 4 receiver settings; "
+            "class identity, except-clause behaviour, normalised args, public immutable attributes, traceback/version gating, custom-class gating (already imported / importable / unknown / non-exception attributes) and ~3000 hostile records are checked.",
+            "ExceptionGroup/BaseExceptionGroup are recorded known findings; the argument-less StopIteration short form carries no traceback text by the published format",
+            "E5", "DESIGN.md#c09"),
 }
 
 NOT_APPLICABLE = {}
